@@ -153,6 +153,9 @@ def run(prog, E, prefix="mpq_", rule="R-BASISSHELL"):
                     return r
                 if basis_field_store(lhs):
                     return [(st[0], st[1], 0, st[3])]
+                l0 = strip(lhs)
+                if len(e) > 4 and e[4] and str(e[4]).endswith("ILLlp_basis") and isinstance(l0, list) and l0 and l0[0] == "u" and l0[1] == "*" and is_basis(l0[2]):
+                    return [(st[0], st[1], 0, st[3])]       # *p->basis = B: the whole record is replaced by a filled one (move)
                 p = apath(lhs)
                 fl = fields_of(p[2])
                 if p[0] == pk and fl and fl[-1].endswith("qsdata::basis") and p[2][-1] == fl[-1]:
